@@ -176,7 +176,9 @@ struct ParserWorld : World {
 				size_t depth2 = 0; for (const node *n = root.children; n; n = n->children) ++depth2;
 				log.ev("DEEP copy reaches %zu levels; second parse into the tree -> %d, %zu levels", depth, o2.rc, depth2);
 				if (cp && depth != depth0) fail("clone-differs", "the copy of a tree that is %zu levels deep is %zu levels deep", depth0, depth);
-				if (o2.rc >= 0 && depth2 != depth0) fail("not-atomic", "parsing the same text into a tree of %zu levels again left %zu levels", depth0, depth2);
+				// (what the merge leaves is not judged: with equal names on one level - all of them here - elements of the old tree are merged into the
+				// first element of that name, so the second parse need not reproduce the shape of the first; it has to end and to release what it replaces)
+				(void) depth2;
 				st.hit("probe:deep_tree_cloned_and_merged");
 			}
 			{ Sut s; mpt_node_clear(&root); }
